@@ -261,12 +261,23 @@ func runC19(c *Ctx) {
 			dst := d.fresh()
 			shape := make([]string, 0, steps)
 			var hist []string
+			var lastOK *c19input
 			for s := 0; s < steps; s++ {
 				var in c19input
 				if r.Intn(5) < 3 {
 					in = oks[r.Intn(len(oks))]
 				} else {
 					in = bads[r.Intn(len(bads))]
+				}
+				// between two decodes the application may have edited the value it got; the next decode
+				// of the very same bytes (or of any other) must still depend on the bytes only
+				if lastOK != nil && r.Intn(3) == 0 {
+					shape = append(shape, "edit:"+c19edit(dst, r))
+					rec.Event("destination-edited-between-decodes")
+					if r.Bool() {
+						in = *lastOK
+						shape = append(shape, "same-bytes")
+					}
 				}
 				buf := exact(in.b)
 				hist = append(hist, mon.FullHex(in.b))
@@ -287,6 +298,8 @@ func runC19(c *Ctx) {
 					continue
 				}
 				shape = append(shape, "ok")
+				keep := in
+				lastOK = &keep
 				fresh := d.fresh()
 				if e := d.decode(fresh, exact(in.b)); e != nil {
 					rec.Violate("history-dependent", d.name+"/fresh-refuses", "bytes accepted into a used destination are refused into a fresh one: "+e.Error(), input)
@@ -374,4 +387,61 @@ func runC19(c *Ctx) {
 	}
 	rec.Require("aliasing-probes", 2000)
 	rec.RequireClasses(300)
+}
+
+// c19edit changes a previously decoded value the way an application might between two decodes
+// (parsed header maps edited or replaced while the retained raw bytes stay, payload and
+// signature touched) and names the edit.
+func c19edit(dst any, r *mon.Rand) string {
+	editMap := func(m map[any]any) {
+		if m == nil {
+			return
+		}
+		for k := range m {
+			if r.Bool() {
+				delete(m, k)
+				break
+			}
+		}
+		m[int64(99)] = "stale"
+	}
+	editHeaders := func(h *cose.Headers) string {
+		switch r.Intn(3) {
+		case 0:
+			editMap(h.Protected)
+			editMap(h.Unprotected)
+			return "maps-edited"
+		case 1:
+			h.Protected = cose.ProtectedHeader{int64(1): cose.AlgorithmPS512, "stale": true}
+			h.Unprotected = cose.UnprotectedHeader{int64(4): []byte("stale")}
+			return "maps-replaced"
+		default:
+			h.Protected, h.Unprotected = nil, nil
+			return "maps-nil"
+		}
+	}
+	switch v := dst.(type) {
+	case *cose.Sign1Message:
+		v.Payload = append(v.Payload, 'x')
+		return editHeaders(&v.Headers)
+	case *cose.UntaggedSign1Message:
+		v.Signature = append(v.Signature, 0)
+		return editHeaders(&v.Headers)
+	case *cose.SignMessage:
+		if len(v.Signatures) > 0 && v.Signatures[0] != nil {
+			editHeaders(&v.Signatures[0].Headers)
+		}
+		return editHeaders(&v.Headers)
+	case *cose.Signature:
+		return editHeaders(&v.Headers)
+	case *cose.Countersignature:
+		return editHeaders(&v.Headers)
+	case *cose.ProtectedHeader:
+		editMap(*v)
+		return "map-edited"
+	case *cose.UnprotectedHeader:
+		editMap(*v)
+		return "map-edited"
+	}
+	return "none"
 }
